@@ -403,9 +403,12 @@ def struct_ser(rep, prog):
     for some values (`skip_serializing_if`) round-trips through JSON and not through a sequence format."""
     n = 0
     last = lambda c: (c.rpath or c.path).split("::")[-1]
-    for f in sorted(prog.fns, key=lambda f: f.path):
-        if f.kind == "closure" or f.name != "serialize" or "Serialize for " not in f.path or "Deserialize" in f.path:
+    for f0 in sorted(prog.fns, key=lambda f: f.path):
+        # derived impls live in anonymous consts ("impl .. Serialize for T"), hand-written ones are "<T as ..Serialize>"
+        if f0.kind == "closure" or f0.name != "serialize" or "Deserialize" in f0.path or not (
+                "Serialize for " in f0.path or "Serialize>::serialize" in f0.path):
             continue
+        f = inline(prog, f0)      # a private helper that opens the struct serializer is folded in
         live = [c for c in f.calls() if not f.blocks[c.bb]["cleanup"]]
         opens = [c for c in live if last(c) == "serialize_struct"]
         if not opens:
@@ -414,7 +417,8 @@ def struct_ser(rep, prog):
         fields = [c for c in live if last(c) == "serialize_field"]
         skips = [c for c in live if last(c) == "skip_field"]
         ends = [c for c in live if last(c) == "end"]
-        nm = f.path.split("Serialize for ")[-1].split(">::serialize")[0][:60]
+        nm = (f0.path.split("Serialize for ")[-1].split(">::serialize")[0] if "Serialize for " in f0.path
+              else f0.path.lstrip("<").split(" as ")[0])[:60]
         ok = bool(ends) and not skips and all(all(c.bb in f.dom.get(e.bb, ()) for e in ends) for c in fields)
         rep.ob("STRUCT-SER", "%s|every field on every path" % nm, ok,
                "%d serialize_field call(s), %d skip_field, %d end; every serialize_field dominates end: %s" % (
